@@ -413,6 +413,31 @@ func runC05(c *Ctx) {
 	// ---------- R10 Client.Glob ----------
 	checkGlobComposite(c, "R10")
 
+	// ---------- R11 a file created without a permissions attribute gets 0666 before umask ----------
+	// (Client.Create and OpenFile send no attributes and document "mode 0666 (before umask)", which is what
+	// os.Create does; the default is the server's)
+	if op := p.Func("(*sshFxpOpenPacket).respond"); op == nil {
+		c.missing("R11", "(*sshFxpOpenPacket).respond")
+	} else {
+		var def int64 = -1
+		pos := p.Pos(op.Pos())
+		eachInstr(op, func(in ssa.Instruction) {
+			cc := callOf(in)
+			if cc == nil || calleeName(cc) != "openfile" {
+				return
+			}
+			pos = p.Pos(in.Pos())
+			for _, l := range leavesOf(cc.Args[len(cc.Args)-1]) {
+				if l.Kind == leafConst {
+					if k, ok := constInt(l.V); ok {
+						def = k
+					}
+				}
+			}
+		})
+		c.check(def == 0o666, "R11", "default mode of a created file", pos, "0666, subject to the server's umask", fmt.Sprintf("a file created without a permissions attribute gets mode %#o before umask; os.Create (and the Client's documentation) say 0666: with umask 002 the result differs", def))
+	}
+
 	// ---------- R4 toLocalPath ----------
 	if tl := p.Func("(*Server).toLocalPath"); tl == nil {
 		c.missing("R4", "(*Server).toLocalPath")
